@@ -141,7 +141,11 @@ class C03(Hist1Prop):
             ren = lambda j: j if j < i else j - 1
             s2["order"] = [ren(j) for j in s2["order"] if j != i]
             s2["batches"] = [[ren(j) for j in bt if j != i] for bt in s2["batches"]]
-            yield self.build(s2, case.get("tags", []))
+            if "pre" in s2:
+                s2["pre"] = min(s2["pre"], n - 1) if i >= s2["pre"] else s2["pre"] - 1
+            if "merge" in s2:
+                s2["merge"]["at"] = min(s2["merge"]["at"], n - 1)
+            yield self.build(s2, [t for t in case.get("tags", []) if not t.startswith(("prefilled", "merge_in"))])
 
     def oracle(self, case, io):
         if case.get("kind") == "histn":
